@@ -270,7 +270,7 @@ CONSTANTS Sizes,       \* block sizes offered, subset of 1..4
           DVals,       \* integer eigenvalues offered (Hermitian blocks)
           GVals,       \* Gaussian-integer eigenvalues offered (general blocks)
           AVals,       \* Gaussian-integer expansion coefficients offered for the start vector
-          Flavours,    \* subset of {"herm", "gen"}
+          Flavours,    \* subset of {"herm", "gen", "jor"}   ("jor": defective, every block is one Jordan block)
           Perms, UnitKinds,   \* subsets of {"id","rev","cyc"}, {"one","alt","gau"}
           Sigmas,      \* values of E_shift offered (0 = option absent)
           GsVals, MaxGsRows,  \* gram_schmidt cases: integer coefficients offered, number of vectors
@@ -281,11 +281,13 @@ CONSTANTS Sizes,       \* block sizes offered, subset of 1..4
 
 \* definitions a cfg can refer to with  Const <- Name  (cfg files cannot hold negative literals / tuples)
 DValsSmall == {-1, 0, 2}
+DValsTwo   == {-1, 2}
 DValsBig   == {-3, -1, 0, 1, 2, 4}
 GValsSmall == {<<-1, 0>>, <<2, 0>>, <<0, 1>>}
 GValsBig   == {<<-2, 0>>, <<-1, 0>>, <<1, 0>>, <<3, 0>>, <<0, 1>>, <<1, -1>>, <<0, -2>>, <<2, 1>>}
 AValsSmall == {<<0, 0>>, <<1, 0>>, <<1, 1>>}
 AValsOne == {<<1, 0>>}
+AValsBin == {<<0, 0>>, <<1, 0>>}
 AValsBig   == {<<0, 0>>, <<1, 0>>, <<-1, 0>>, <<0, 1>>, <<2, 0>>, <<1, 1>>, <<1, -2>>}
 SigmasSmall == {0, 3}
 SigmasPM   == {0, 3, -4}
@@ -355,13 +357,17 @@ Variants(n, fl) ==
     ELSE {[lk |-> a, hk |-> b, p |-> c, u |-> d] : a \in (IF fl = "herm" THEN {"I"} ELSE {"L1", "L2"}),
                                                   b \in HKinds(n), c \in Perms, d \in UnitKinds}
 
+\* the matrix that is transformed by Q: the diagonal of the eigenvalues; for the defective flavour "jor" one Jordan
+\* block  lambda 1 + (ones on the first superdiagonal)
+Sup(n) == TLCEval([i \in 1..n |-> TLCEval([j \in 1..n |-> IF j = i + 1 THEN C1 ELSE C0])])
+JMat(D) == IF pl.fl = "jor" THEN MatAdd(DiagM(D), Sup(Len(D))) ELSE DiagM(D)
 MkBlock(q, n, var, D) ==
     LET B  == MatMul(LMat(n, var.lk), HMat(n, var.hk))
         Bi == MatMul(Dagger(HMat(n, var.hk)), LInv(n, var.lk))
         Q  == TLCEval([i \in 1..n |-> TLCEval([j \in 1..n |-> CMul(UnitOf(var.u, i), B[PermOf(n, var.p, i)][j])])])
         Qi == TLCEval([j \in 1..n |-> TLCEval([i \in 1..n |-> CMul(CConj(UnitOf(var.u, i)), Bi[j][PermOf(n, var.p, i)])])])
     IN [q |-> q, n |-> n, s |-> HScale(n, var.hk), var |-> var, D |-> D, Q |-> Q, Qi |-> Qi,
-        A |-> MatMul(Q, MatMul(DiagM(D), Qi))]
+        A |-> MatMul(Q, MatMul(JMat(D), Qi))]
 
 \* ---- canonical sequences from sets ------------------------------------------
 RECURSIVE SortC(_)
@@ -407,6 +413,7 @@ SetD == /\ pl.stage = "D"
                ladder == CInt(pos - 4)
                dyadic == {CInt(Pow2(DyE - DyExp1[pos]))} \cup (IF pos \in 3..5 THEN {CInt(Pow2(DyE - DyExp2[pos]))} ELSE {})
            IN \E d \in (IF DMode = "ladder" THEN {ladder} ELSE IF DMode = "dyadic" THEN dyadic
+                        ELSE IF pl.fl = "jor" THEN (IF pl.hdrs[nb].D = <<>> THEN {CInt(x) : x \in DVals} ELSE {pl.hdrs[nb].D[1]})
                         ELSE IF pl.fl = "herm" THEN {CInt(x) : x \in DVals} ELSE GVals) :
                 LET D == Append(pl.hdrs[nb].D, d)
                 IN pl' = [pl EXCEPT !.hdrs[nb].D = D, !.stage = IF Len(D) < pl.hdrs[nb].n THEN "D" ELSE "blk"]
@@ -429,18 +436,25 @@ SetA == /\ pl.stage = "a"
 OptLanczos == /\ pl.stage = "opt" /\ pl.fl = "herm" /\ "lanczos" \in Kinds
               /\ \E sigma \in Sigmas, nO \in 0..Min(2, pl.m) :
                    pl' = [pl EXCEPT !.stage = "build"] @@ [kind |-> "lanczos", sigma |-> sigma, nO |-> nO]
-OptEvo     == /\ pl.stage = "opt" /\ "evo" \in Kinds
+OptEvo     == /\ pl.stage = "opt" /\ "evo" \in Kinds /\ pl.fl # "jor"
               /\ \E sigma \in Sigmas : pl' = [pl EXCEPT !.stage = "build"] @@ [kind |-> "evo", sigma |-> sigma]
-OptArnoldi == /\ pl.stage = "opt" /\ "arnoldi" \in Kinds
+OptArnoldi == /\ pl.stage = "opt" /\ "arnoldi" \in Kinds /\ pl.fl # "jor"
               /\ \E sigma \in Sigmas : pl' = [pl EXCEPT !.stage = "build"] @@ [kind |-> "arnoldi", sigma |-> sigma]
-OptGmres   == /\ pl.stage = "opt" /\ "gmres" \in Kinds
+OptGmres   == /\ pl.stage = "opt" /\ "gmres" \in Kinds /\ pl.fl # "jor"
               /\ \A i \in 1..Len(pl.idx) : LamOf(pl.hdrs, pl.idx[i]) # C0           \* A non-singular on the sector
               /\ \E x0k \in {"zero", "half"} : pl' = [pl EXCEPT !.stage = "build"] @@ [kind |-> "gmres", x0k |-> x0k]
 \* GMRES on an ill-conditioned operator: right-hand side b = v with components on all eigenvectors
-OptGmresIll == /\ pl.stage = "opt" /\ "gmresill" \in Kinds /\ DMode = "dyadic"
+OptGmresIll == /\ pl.stage = "opt" /\ "gmresill" \in Kinds /\ DMode = "dyadic" /\ pl.fl # "jor"
                /\ pl' = [pl EXCEPT !.stage = "build"] @@ [kind |-> "gmresill"]
+\* exp(delta (A + sigma)) v for a defective operator (ArnoldiEvolution): the blocks touched by v must have different
+\* eigenvalues, so that the Krylov dimension is the sum of the grades of the block components
+ActiveBlocks(idx, a) == {idx[i][1] : i \in {i \in 1..Len(a) : a[i] # C0}}
+OptJevo    == /\ pl.stage = "opt" /\ "jevo" \in Kinds /\ pl.fl = "jor"
+              /\ LET act == ActiveBlocks(pl.idx, pl.a)
+                 IN Cardinality({pl.hdrs[b].D[1] : b \in act}) = Cardinality(act)
+              /\ \E sigma \in Sigmas : pl' = [pl EXCEPT !.stage = "build"] @@ [kind |-> "jevo", sigma |-> sigma]
 GsCols(m) == Min(m, 3)
-OptGsBegin == /\ pl.stage = "opt" /\ "gs" \in Kinds
+OptGsBegin == /\ pl.stage = "opt" /\ "gs" \in Kinds /\ pl.fl # "jor"
               /\ pl' = [pl EXCEPT !.stage = "gsrows"] @@ [kind |-> "gs", C |-> <<>>]
 OptGsRow   == /\ pl.stage = "gsrows" /\ Len(pl.C) < MaxGsRows
               /\ \E row \in [1..GsCols(pl.m) -> GsVals] : pl' = [pl EXCEPT !.C = Append(@, row)]
@@ -550,8 +564,32 @@ ExpGs(bs, comps, C) ==
     [kept |-> KeptRows(C, 1, <<>>),
      vecs |-> [r \in 1..Len(C) |-> BVSum([j \in 1..Len(C[r]) |-> BVScale(CInt(C[r][j]), comps[j].c)], BVZero(bs))]]
 
+\* v = sum_b Q_b a_b;  (A_b - lambda_b)^k Q_b a_b = Q_b N^k a_b  with  (N c)_j = c_{j+1}:  w[k] are these vectors, k < grade
+JordanOf(full, idx, a) ==
+    LET act == SortI(ActiveBlocks(idx, a))
+    IN TLCEval([t \in 1..Len(act) |->
+         LET b == act[t]
+             n == full[b].n
+             coef == [j \in 1..n |-> a[CHOOSE i \in 1..Len(idx) : idx[i] = <<b, j>>]]
+             g == CHOOSE j \in 1..n : coef[j] # C0 /\ \A jj \in (j + 1)..n : coef[jj] = C0
+         IN [b |-> b, lam |-> full[b].D[1][1], g |-> g,
+             w |-> TLCEval([kk \in 1..g |->
+                     TLCEval([bb \in 1..Len(full) |->
+                        IF bb # b THEN VZero(full[bb].n)
+                        ELSE MatVec(full[b].Q, TLCEval([j \in 1..n |-> IF j + kk - 1 <= n THEN coef[j + kk - 1] ELSE C0]))])])]])
+BuildJ ==
+    /\ pl.stage = "build" /\ pl.kind = "jevo"
+    /\ LET full == TLCEval([b \in 1..Len(pl.hdrs) |-> MkBlock(pl.hdrs[b].q, pl.hdrs[b].n, pl.hdrs[b].var, pl.hdrs[b].D)])
+           jor == JordanOf(full, pl.idx, pl.a)
+           m == ISum([t \in 1..Len(jor) |-> jor[t].g])
+       IN pl' = [stage |-> "case", fl |-> pl.fl, hdrs |-> pl.hdrs, q0 |-> pl.q0, idx |-> pl.idx, a |-> pl.a, m |-> m,
+                 kind |-> "jevo", sigma |-> pl.sigma, ds |-> 1,
+                 blocks |-> TLCEval([b \in 1..Len(full) |-> [q |-> full[b].q, n |-> full[b].n, s |-> full[b].s, A |-> full[b].A]]),
+                 jor |-> jor, runs |-> NmaxTable(m),
+                 v |-> BVSum([t \in 1..Len(jor) |-> jor[t].w[1]], BVZero(full))]
+
 Build ==
-    /\ pl.stage = "build"
+    /\ pl.stage = "build" /\ pl.kind # "jevo"
     /\ LET full  == TLCEval([b \in 1..Len(pl.hdrs) |-> MkBlock(pl.hdrs[b].q, pl.hdrs[b].n, pl.hdrs[b].var, pl.hdrs[b].D)])
            comps == TLCEval(CompsOf(full, pl.idx, pl.a))
            nv2   == ISum([i \in 1..Len(comps) |-> comps[i].W])
@@ -582,9 +620,11 @@ DoOptGsBegin == OptGsBegin /\ PLUnch
 DoOptGsRow   == OptGsRow /\ PLUnch
 DoOptGsEnd   == OptGsEnd /\ PLUnch
 DoBuild      == Build /\ PLUnch
+DoOptJevo    == OptJevo /\ PLUnch
+DoBuildJ     == BuildJ /\ PLUnch
 
 NextPL == \/ DoBeginBlock \/ DoSetD \/ DoEndOp \/ DoSetA \/ DoOptLanczos \/ DoOptEvo \/ DoOptArnoldi
-          \/ DoOptGmres \/ DoOptGmresIll \/ DoOptGsBegin \/ DoOptGsRow \/ DoOptGsEnd \/ DoBuild
+          \/ DoOptGmres \/ DoOptGmresIll \/ DoOptGsBegin \/ DoOptGsRow \/ DoOptGsEnd \/ DoBuild \/ DoOptJevo \/ DoBuildJ
 SpecPL == InitPL /\ [][NextPL]_<<cfvars, pl>>
 
 \* ---- certificates: the planted data are what they claim to be (evaluated on every finished case) ---
@@ -593,12 +633,12 @@ BlockCertificate ==
       \A b \in 1..Len(pl.hdrs) :
          LET B == MkBlock(pl.hdrs[b].q, pl.hdrs[b].n, pl.hdrs[b].var, pl.hdrs[b].D) IN
          /\ pl.blocks[b].A = B.A /\ pl.blocks[b].s = B.s
-         /\ MatMul(B.A, B.Q) = ScaleM(B.s, MatMul(B.Q, DiagM(B.D)))         \* A Q = Q D   (A carries the factor s)
+         /\ MatMul(B.A, B.Q) = ScaleM(B.s, MatMul(B.Q, JMat(B.D)))          \* A Q = Q D  (Q J for "jor"; A carries the factor s)
          /\ MatMul(B.Qi, B.Q) = ScaleM(B.s, Ident(B.n))                       \* Qi = s Q^-1
          /\ (pl.fl = "herm" => /\ B.A = Dagger(B.A) /\ B.Qi = Dagger(B.Q)
                                /\ \A j \in 1..B.n : B.D[j][2] = 0)
 VectorCertificate ==
-    pl.stage = "case" =>
+    (pl.stage = "case" /\ pl.kind # "jevo") =>
          /\ Len(pl.comps) = pl.m /\ pl.m >= 1
          /\ \A i \in 1..pl.m :                                                \* A c_lam = lam c_lam, per block
               \A b \in 1..Len(pl.blocks) :
@@ -609,8 +649,21 @@ VectorCertificate ==
          /\ (pl.fl = "herm" =>
                /\ pl.nv2 = BVNorm2(pl.v)
                /\ \A i, j \in 1..pl.m : BVDot(pl.comps[i].c, pl.comps[j].c) = (IF i = j THEN CInt(pl.comps[i].W) ELSE C0))
+\* Jordan chains:  A w_k = lambda w_k + w_{k+1},  w_g = 0,  v = sum of the chain heads, support in the sector
+JordanCertificate ==
+    (pl.stage = "case" /\ pl.kind = "jevo") =>
+        /\ pl.m = ISum([t \in 1..Len(pl.jor) |-> pl.jor[t].g]) /\ pl.m >= 1
+        /\ \A t1, t2 \in 1..Len(pl.jor) : t1 # t2 => pl.jor[t1].lam # pl.jor[t2].lam
+        /\ \A t \in 1..Len(pl.jor) :
+             LET J == pl.jor[t] IN
+             /\ pl.blocks[J.b].q = pl.q0 /\ Len(J.w) = J.g
+             /\ \A kk \in 1..J.g : \A bb \in 1..Len(pl.blocks) :
+                   /\ J.w[kk] # BVZero(pl.blocks)
+                   /\ MatVec(pl.blocks[bb].A, J.w[kk][bb]) =
+                        VAdd(VScale(CInt(pl.blocks[bb].s * J.lam), J.w[kk][bb]),
+                             VScale(CInt(pl.blocks[bb].s), IF kk < J.g THEN J.w[kk + 1][bb] ELSE VZero(pl.blocks[bb].n)))
 CaseRight ==
-    pl.stage = "case" =>
+    (pl.stage = "case" /\ pl.kind # "jevo") =>
         /\ (pl.kind = "lanczos" =>
               /\ pl.g2 = BVNorm2(pl.gvec) /\ pl.g2 > 0 /\ pl.mE >= 1 /\ pl.mE <= pl.m
               /\ pl.raynum >= pl.Eex * pl.nv2                                 \* Rayleigh quotient of v bounds E from above
